@@ -462,14 +462,19 @@ func runNearMiss(t *testing.T, run *emit.Run, r *rand.Rand) {
 			m = 1 + r.Intn(len(perm))
 		}
 		var subs []sub
-		for _, id := range perm[:m] {
+		even := r.Intn(2) == 0 // an even split: no answer has two thirds on its own
+		for j, id := range perm[:m] {
 			w := r.Intn(len(proofs))
+			if even {
+				w = j % len(proofs)
+			}
 			if proofs[w] == nil && r.Intn(3) != 0 {
 				w = 0
 			}
 			subs = append(subs, sub{id, w})
 		}
 		run.Count("near-miss-family", kind)
+		run.Count("near-miss-split", map[bool]string{true: "even", false: "random"}[even])
 		doSplit(ids, shares, proofs, subs, "generated:"+kind)
 	}
 }
